@@ -424,7 +424,9 @@ class Filter(Unit):
 
     def setup(self, I):
         f = raw(PacketListener, 'call_packet')
-        keys = loop_keys(f, 'minecraft.networking.packets.packet_listener.PacketListener.call_packet', kind=ast.For)
+        # the loop over the registered types, wherever it is written: in call_packet or in a private helper it calls
+        from .common import reachable_loops
+        keys = reachable_loops(f, PacketListener, kind=ast.For, depth=1)
         unit = self
 
         def inv(I_, frame, j):
